@@ -140,7 +140,7 @@ def really_covered(text, node_name, node_id, certs):
     from cryptography.hazmat.primitives.asymmetric import padding
     from cryptography.exceptions import InvalidSignature
     import xmlsec_core
-    root = ET.fromstring(text)
+    root = xswdoc.parse_text(text)
     ns, _, tag = node_name.rpartition(":")
     if not node_id:
         return "the element has no identifier"
@@ -206,7 +206,7 @@ def items_of(text):
         return out
     if r is None or not isinstance(r, samlp.Response):
         return out
-    root = ET.fromstring(text)
+    root = xswdoc.parse_text(text)
     out.append((r, class_name(r), [], "response"))
     plain = [i for i, c in enumerate(root) if c.tag == ASSERTION]
     for j, a in enumerate(r.assertion or []):
@@ -281,7 +281,7 @@ def _run(ctx):
                 continue
             texts_seen.add(hk)
             try:
-                root = ET.fromstring(text)
+                root = xswdoc.parse_text(text)
             except ET.ParseError:
                 continue
             cd = xswdoc.CoqDoc()
@@ -357,7 +357,7 @@ def oracle_pipeline(ctx, docs):
         full = (d.alg == ALGS[main][0]) or not ctx.quick
         required = {"response": (True, False, False), "assertion": (False, True, False), "both": (True, True, False)}[d.level]
         settings = SETTINGS if full else [required, (False, False, True), ctx.rng.choice(SETTINGS)]
-        root = ET.fromstring(d.xml)
+        root = xswdoc.parse_text(d.xml)
         dup = has_dup_ids(root)
         for st in settings:
             case = SPCase(wrs=st[0], was=st[1], waors=st[2])
@@ -399,7 +399,7 @@ def oracle_pipeline(ctx, docs):
     for d in attack:
         required = {"response": (True, False, False), "assertion": (False, True, False), "both": (True, True, False)}[d.level]
         for label, sp in variant_sps(required):
-            for pol in (POLICIES if has_dup_ids(ET.fromstring(d.xml)) else ["fail"]):
+            for pol in (POLICIES if has_dup_ids(xswdoc.parse_text(d.xml)) else ["fail"]):
                 set_policy(pol)
                 got = resp.observe(sp, d.xml)
                 acc = isinstance(got, list)
